@@ -105,6 +105,13 @@ def build(run):
         ("tensor-valued: x", x), ("tensor-valued: 2*u", 2 * u), ("tensor-valued: u + v", u + v), ("tensor-valued: as_vector([f*g, f+g])", as_vector([f * g, f + g])),
         ("tensor-valued: outer(u, v)", outer(u, v)), ("tensor-valued: grad(f)", grad(f)), ("tensor-valued: A*u", A * u), ("tensor-valued: A.T", A.T),
         ("tensor-valued: conditional(f > 0, u, v)", conditional(gt(f, 0), u, v)), ("tensor-valued: grad(u)", grad(u)), ("tensor-valued: A", A),
+        # index scoping at evaluation: the axis index of a component tensor is also the summation index of an enclosing contraction (and of a second component tensor):
+        # the binding made while a component is evaluated must not outlive it (round-11 seed c24-k)
+        ("index scope: (u[i]*C[1])*v[i], C = as_tensor(2*v[i] + f*u[i], i)", (u[i] * ufl.as_tensor(2 * v[i] + f * u[i], i)[1]) * v[i]),
+        ("index scope: C[0]*(u[i]*v[i])", ufl.as_tensor(2 * v[i] + f * u[i], i)[0] * (u[i] * v[i])),
+        ("index scope: (u[i]*v[i])*C[1] + C[0]*u[i]*u[i]", (u[i] * v[i]) * ufl.as_tensor(g * v[i] - u[i], i)[1] + ufl.as_tensor(g * v[i] - u[i], i)[0] * u[i] * u[i]),
+        ("index scope: A[i,j]*C[j]*D[1]*u[i], C, D over i", A[i, j] * ufl.as_tensor(f * u[i] + v[i], i)[j] * ufl.as_tensor(u[i] * g + v[i], i)[1] * u[i]),
+        ("index scope: matrix component tensor over (i,j) inside sums over i and j", ufl.as_tensor(A[i, j] + B[j, i] * f, (i, j))[0, 1] * A[i, j] * B[i, j]),
         # three space dimensions (fields on a tetrahedron mesh)
         ("curl 3d [0]", ufl.curl(u3)[0]), ("curl 3d [1]", ufl.curl(u3)[1]), ("curl 3d [2]", ufl.curl(u3)[2]), ("curl(f3*u3) . v3", dot(ufl.curl(f3 * u3), v3)),
         ("div 3d", div(u3 * f3)), ("grad 3d [2]", grad(f3 * g3)[2]), ("cross 3d", cross(u3, v3)[1]), ("det 3x3 coefficient", det(A3)), ("cofac 3x3 coefficient [2,0]", ufl.cofac(A3)[2, 0]),
